@@ -1,4 +1,4 @@
-(* C17K — source tie BY TRANSLATION for the component layer — SGD: Update's input test (nil pointer, nil tensor, missing gradient) is the case analysis of the model's sgd_update; config default 0.01 and copy.
+(* C17K — source tie BY TRANSLATION for the component layer — SGD: Update's input test (nil pointer, nil tensor, missing gradient) is the case analysis of the model's sgd_update; config default 0.01 and copy; Update itself: the cell behind the pointer ends up holding exactly w - lr*g (element-wise on equal shapes), nothing is replaced when the input is rejected, no existing tensor changes.
    Statements only (proofs: Proofs/Comp*P.v).  Model/GoComp.v is REGENERATED from /repo's Go sources on every run by
    harness/gox (comp.go): the component layer's own logic — input validators, config validators, constructors, the
    scale formulas of the initializers, the Accuracy counters — as loop-free programs of the imperative language of
@@ -14,7 +14,7 @@ From Coq Require Import String List ZArith Bool Arith.
 From Qeep Require Import Model.Scalar Model.Nd Model.Fill Model.Data Model.Valid Model.Api Model.Grad Model.Backprop Model.Components Model.Consts Model.DataIR Model.HeapExt Model.CompExt.
 From Qeep Require Model.GoComp.
 From Qeep Require Import Proofs.DataIRP.
-From Qeep Require Proofs.CompValidP Proofs.CompAccP Proofs.CompInitP.
+From Qeep Require Proofs.CompValidP Proofs.CompAccP Proofs.CompInitP Proofs.CompSgdP.
 Import ListNotations.
 Local Open Scope string_scope.
 
@@ -120,3 +120,95 @@ Theorem NewSGD :
                 end]], h).
 Proof. exact @CompInitP.NewSGD. Qed.
 Print Assumptions NewSGD.
+
+Theorem Update_replaces_nothing_when_it_rejects :
+  forall (A : Type) (SA : Scalar A) (fltb fleb : A -> A -> bool)
+    (lib : string -> list dval -> heap -> option (list dval * heap)) (fuel depth : nat) 
+    (h : heap) (lr : A) (c : option targ),
+  CompValidP.cellOk h c ->
+  CompSgdP.rejected h c ->
+  exists g l : denv,
+    drun cfapp heap (cext fltb fleb lib) GoComp.c_SGD_Update fuel depth [DF lr; CompValidP.dcell c] h =
+    DRet heap [DI 1] h g l /\ vlookup g l "wptr" = Some (CompValidP.dcell c).
+Proof. exact @CompSgdP.Update_rejects. Qed.
+Print Assumptions Update_replaces_nothing_when_it_rejects.
+
+Theorem Update_stores_w_minus_lr_g_behind_the_pointer :
+  forall (A : Type) (SA : Scalar A) (fltb fleb : A -> A -> bool)
+    (lib : string -> list dval -> heap -> option (list dval * heap)) (fuel depth : nat) 
+    (h : heap) (lr : A) (w : nat) (wv gr : tensor A) (name : option nat),
+  valOf h w = Some wv ->
+  gradOf h w = Some gr ->
+  let o :=
+    drun cfapp heap (cext fltb fleb lib) GoComp.c_SGD_Update fuel depth
+      [DF lr; CompValidP.dcell (Some (Some w))] h in
+  match (dor delta <- v_unary (UScale lr) gr; v_arith BiSub wv delta) with
+  | Ok v =>
+      (exists g l : denv, o = DRet heap [DI 0] h g l /\ vlookup g l "wptr" = Some (DL [embT v])) /\
+      sgd_update h lr (Some w) name = (let '(h', id) := alloc h v (false, true, []) name in (h', Ok id))
+  | Err =>
+      (exists g l : denv, o = DRet heap [DI 1] h g l /\ vlookup g l "wptr" = Some (DL [DNil])) /\
+      sgd_update h lr (Some w) name = (h, Err)
+  | Panic => o = DPanic heap /\ sgd_update h lr (Some w) name = (h, Panic)
+  end.
+Proof. exact @CompSgdP.Update_ok. Qed.
+Print Assumptions Update_stores_w_minus_lr_g_behind_the_pointer.
+
+Theorem Update_on_equal_shapes_is_elementwise_w_minus_lr_g :
+  forall (A : Type) (SA : Scalar A) (fltb fleb : A -> A -> bool)
+    (lib : string -> list dval -> heap -> option (list dval * heap)) (fuel depth : nat) 
+    (h : heap) (lr : A) (w : nat) (wv gr : tensor A),
+  valOf h w = Some wv ->
+  gradOf h w = Some gr ->
+  wf wv ->
+  wf gr ->
+  dims gr = dims wv ->
+  exists v : tensor A,
+    (dor delta <- v_unary (UScale lr) gr; v_arith BiSub wv delta) = Ok v /\
+    dims v = dims wv /\
+    wf v /\
+    (forall idx : list nat,
+     NdP.validIdx (dims wv) idx ->
+     get (data v) idx =
+     match get (data wv) idx with
+     | Some x => match get (data gr) idx with
+                 | Some gx => Some (ssub x (smul lr gx))
+                 | None => None
+                 end
+     | None => None
+     end) /\
+    (exists g l : denv,
+       drun cfapp heap (cext fltb fleb lib) GoComp.c_SGD_Update fuel depth
+         [DF lr; CompValidP.dcell (Some (Some w))] h = DRet heap [DI 0] h g l /\
+       vlookup g l "wptr" = Some (DL [embT v])).
+Proof. exact @CompSgdP.Update_same_shape. Qed.
+Print Assumptions Update_on_equal_shapes_is_elementwise_w_minus_lr_g.
+
+Theorem Update_leaves_every_existing_tensor_alone :
+  forall (A : Type) (SA : Scalar A) (fltb fleb : A -> A -> bool)
+    (lib : string -> list dval -> heap -> option (list dval * heap)) (fuel depth : nat) 
+    (h h' : heap) (lr : A) (c : option targ),
+  CompValidP.cellOk h c ->
+  CompSgdP.finalHeap
+    (drun cfapp heap (cext fltb fleb lib) GoComp.c_SGD_Update fuel depth [DF lr; CompValidP.dcell c] h) =
+  Some h' -> h' = h.
+Proof. exact @CompSgdP.Update_heap_unchanged. Qed.
+Print Assumptions Update_leaves_every_existing_tensor_alone.
+
+Theorem Update_returns_or_panics :
+  forall (A : Type) (SA : Scalar A) (fltb fleb : A -> A -> bool)
+    (lib : string -> list dval -> heap -> option (list dval * heap)) (fuel depth : nat) 
+    (h : heap) (lr : A) (c : option targ),
+  CompValidP.cellOk h c ->
+  let o :=
+    drun cfapp heap (cext fltb fleb lib) GoComp.c_SGD_Update fuel depth [DF lr; CompValidP.dcell c] h in
+  (exists (e : Z) (g l : denv), o = DRet heap [DI e] h g l /\ (e = 0%Z \/ e = 1%Z)) \/ o = DPanic heap.
+Proof. exact @CompSgdP.Update_returns_or_panics. Qed.
+Print Assumptions Update_returns_or_panics.
+
+Theorem sgd_update_rejects_the_same :
+  forall (A : Type) (SA : Scalar A) (h : heap) (lr : A) (cell : targ) (name : option nat),
+  CompValidP.cellOk h (Some cell) ->
+  CompSgdP.rejected h (Some cell) -> sgd_update h lr cell name = (h, Err).
+Proof. exact @CompSgdP.sgd_update_rejected. Qed.
+Print Assumptions sgd_update_rejects_the_same.
